@@ -30,6 +30,11 @@ CLAIMED = {
             "Seeded search over presets x store_* flags x dimensions 0..130 x histories with divergences of every cause and transformation updates; every draw's statistics are compared with the declared schema.",
             "Schema = what Settings::stat_* report for the same math object; density stub trusted.",
             "DESIGN.md §5 C16"),
+    "C09": (ENGINE_A, "exploration",
+            "seeded simulation of adaptive chains with fault-injected rejected draws; window invariants checked on the strategy's counters (hook H4) after every draw, step-size search re-run seen at the Math seam",
+            "Seeded search over num_tune 3..300, early/final window fractions, early/main switch frequencies, update frequency, growth factors 1..3, Diag/LowRank x NUTS/MCLMC and histories with every mixture of accepted and rejected draws (divergences injected by the density stub, hard targets). After every draw: the estimator counts move only as the history allows; a switch happens only with a full window AND room for the next (observed) window before the final step-size window; no switch is missed when even the largest admissible next window fits; foreground-background is constant between switches (no stale draws); windows are early-sized in the early phase and grow geometrically afterwards; nothing is touched in the final window; the first transformation change re-runs the step-size search and later ones do not.",
+            "Needs hook H4 (read-only counters). The rounding of the growth and the update frequency on non-switch draws are deliberately not pinned down. The symmetric statistic in the final window is covered by C07.",
+            "DESIGN.md §5 C09, Appendix B"),
     "C10": (ENGINE_B, "exploration",
             "real Sampler as shuttle tasks under the harness's seeded scheduler; bitwise trace comparison against the system's own uninterrupted run",
             "Seeded search over thread interleavings (sticky-random and PCT-like scheduler personalities), num_cores 1..4, num_chains 1..6, six presets, user scripts with pause/resume/progress/flush/inspect at seeded points; every execution's per-chain records must equal, bit for bit, the uninterrupted single-core FIFO run, runs with one chain more/fewer must agree on the common chains, and no two chains may produce the same draws.",
@@ -60,6 +65,11 @@ CLAIMED = {
             "Per history a flush follows recorded draws with probability up to 1 (crash point after every recorded draw), for chunk sizes 1, smaller than, equal to, larger than and not dividing the draw counts; after each flush a fresh zarrs reader on a snapshot of the store must read the acknowledged prefix of every variable and statistic of the flushed chain (all chains' earlier acknowledgements are re-checked periodically and after finalize). A second batch fails the k-th store write: the call must return Err without panic and acknowledged prefixes must still read back.",
             "Sync writer on MemoryStore only (async writer / filesystem store not covered, see DESIGN.md §9). A crash is modelled as 'nothing after this store state survives'.",
             "DESIGN.md §5 C15"),
+    "C18": (ENGINE_A, "exploration",
+            "seeded simulation of MCLMC chains with fault injection (divergence position, nested step-size retries); every ESH update / normalisation observed at the delegating Math seam compared with the closed form; history oracles",
+            "Seeded search over the three MCLMC presets x dimension 2..20 x L, subsample frequency, step size, trajectory kinds, switch fraction, dynamic step size, with recoverable-class faults at seeded evaluation indices (single and nested retries, divergences). Unit norm after every ESH update and refresh, each ESH update equals the closed form and its reported energy change, step count = max(1, round(f*L/eps)), total integration time N*eps under retries, divergent draw leaves the position unchanged and is followed by a full refresh, the integrator switch happens once at the configured draw with a fresh normalised momentum.",
+            "Near-singular ESH updates (momentum numerically anti-parallel to the gradient) are skipped and counted; tolerances 1e-12 (norm), 1e-8 (closed form, condition-scaled).",
+            "DESIGN.md §5 C18"),
 }
 
 NOT_APPLICABLE = {
